@@ -1,4 +1,5 @@
 import SieveModel.Lemmas.ClientState
+import SieveModel.Lemmas.Rename
 /-!
 # C14 — Emulated rename never loses or overwrites a script
 
@@ -13,8 +14,16 @@ DELETESCRIPT old.  Proved about the model (every reply sequence, every name, eve
   SETACTIVE when needed) returned True — at every earlier refusal or failure the old script is
   still on the server;
 * failures surface as `False` or as a raised error only (`result_shape`).
-The server-side consequence (the store after the call) is checked against the reference server on
-every state class × fault placement.
+Proved about the abstract walk `Rename.run` (Model/Rename.lean: the five commands against an abstract
+RFC 5804 store, each answered normally, with NO, with BYE, not at all, or executed with its reply lost —
+every store with distinct names, every pair of names, every fault placement, every content
+transformation): `emulated_rename_is_safe` (the store stays well-formed; scripts the call is not about
+are untouched; an existing script named like the target is never written over — nothing changes at all;
+the script being renamed survives under its old name unchanged or under the new name as uploaded; no
+third script becomes active; True means old name gone, new name holds the content, active iff the old
+one was), `rename_ends_in_one_of_five_stores` and `rename_without_faults_succeeds`.  The walk is tied
+to the real client running against the executable reference server on every state class × fault
+placement (driver op `ren`).
 -/
 namespace C14
 open Client
@@ -133,5 +142,42 @@ theorem delete_only_after_copy_and_activation (c : Client) (old new : Bytes) (ac
   have h2 : (decide (new ∈ scripts) || active == some new) = false := by
     simp [hnew.1, hnew.2]
   simp only [h1, h2, Bool.false_eq_true, if_false, hg, hp]
+
+/-! ## the store after the call -/
+
+open Rename in
+/-- **every run of the emulated rename ends in one of five stores**: unchanged; with the copy; with the
+    copy active; with the copy and without the original; the same with the copy active — the last two
+    only with result True (or Error when the final reply was lost), the first three never with True -/
+theorem rename_ends_in_one_of_five_stores (f : Bytes → Bytes) (plan : Step → Fault) (s : Store) (old new : Bytes)
+    (hw : WF s) : Shape f s old new (run f plan s old new) :=
+  run_shape f plan s old new hw
+
+open Rename in
+/-- **the emulated rename never loses or overwrites a script**, whatever the server refuses or fails at -/
+theorem emulated_rename_is_safe (f : Bytes → Bytes) (plan : Step → Fault) (s : Store) (old new : Bytes) (hw : WF s) :
+    Safe f s old new (run f plan s old new).1 (run f plan s old new).2 :=
+  run_safe f plan s old new hw
+
+open Rename in
+/-- and without faults an existing script is renamed to a free name -/
+theorem rename_without_faults_succeeds (f : Bytes → Bytes) (s : Store) (old new : Bytes) (hw : WF s)
+    (hold : old ∈ s.names) (hnew : new ∉ s.names) : (run f (fun _ => .none) s old new).2 = .true :=
+  run_succeeds f s old new hw hold hnew
+
+open Rename in
+/-- non-vacuity: three scripts, the one being renamed active, the reply to DELETESCRIPT lost — the store
+    ends with the copy active and the original gone, the caller sees Error -/
+example : run id (fun st => if st = .delete then .lost else .none)
+      ⟨[(sb "a", sb "keep;"), (sb "old", sb "stop;"), (sb "z", [])], some (sb "old")⟩ (sb "old") (sb "new") =
+    (⟨[(sb "a", sb "keep;"), (sb "z", []), (sb "new", sb "stop;")], some (sb "new")⟩, .error) := by decide
+
+open Rename in
+example : WF ⟨[(sb "a", sb "keep;"), (sb "old", sb "stop;"), (sb "z", [])], some (sb "old")⟩ := by
+  refine ⟨by decide, ?_⟩
+  intro a ha
+  have : a = sb "old" := (Option.some.inj ha).symm
+  subst this
+  decide
 
 end C14
